@@ -141,6 +141,18 @@ pub fn generate(seed: u64, thorough: bool) -> Library {
             d.blocks.insert(0, Block::Heading { level: 1, inl: vec![Inline::Word(t.clone())], setext: false });
         }
     }
+    // a popular note: block-referenced from six to nine others (more referrers than a truncated listing shows).
+    // Own stream: every other draw of the library stays what it was.
+    let mut pop = Rng::stream(seed, "popular-note");
+    if n >= 8 && pop.chance(1, 3) {
+        let target = pop.pick(&keys).clone();
+        let mut others: Vec<String> = keys.iter().filter(|k| **k != target).cloned().collect();
+        pop.shuffle(&mut others);
+        let m = pop.range(6, 9).min(others.len());
+        for k in others.into_iter().take(m) {
+            docs.get_mut(&k).unwrap().blocks.push(Block::BlockRef { text: "pop".into(), key: target.clone(), ext: false });
+        }
+    }
     let notes = docs.iter().map(|(k, d)| (k.clone(), gen::render(k, d))).collect();
     let mut queries = vec![String::new()];
     for _ in 0..3 {
